@@ -16,6 +16,8 @@ def plan(tier, seed):
                  payload=dict(func="vf.pyshim.lemmas:dict_index_framing")),
             dict(name="C01-lemma-type-tables", kind="pyfunc", timeout=300,
                  payload=dict(func="vf.pyshim.lemmas:type_tables")),
+            dict(name="C01-lemma-v2-inplace", kind="pyfunc", timeout=300,
+                 payload=dict(func="vf.pyshim.lemma_v2:v2_inplace")),
             dict(name="C01-lemma-range-index", kind="pyfunc", timeout=300,
                  payload=dict(func="vf.pyshim.lemmas:range_index", kwargs=dict(max_step=6)))]
     wc = wc_lattice.jobs("C01", tier)
